@@ -62,6 +62,13 @@ type ALease struct {
 	GSeq     uint32 `json:"gseq"`
 	OSeq     uint32 `json:"oseq"`
 	Provider string `json:"provider"`
+	NS       string `json:"ns,omitempty"` // abstract name in the model universe; unused here
+}
+
+// AOther: a second lease deployed into the same cluster after the rounds of the main lease.
+type AOther struct {
+	Lease ALease `json:"lease"`
+	R     ARound `json:"r"`
 }
 
 type AInput struct {
@@ -69,6 +76,7 @@ type AInput struct {
 	Slice  string   `json:"slice"`
 	Lease  ALease   `json:"lease"`
 	Rounds []ARound `json:"rounds"`
+	Other  []AOther `json:"other"`
 }
 
 // ---- concretisation ----
